@@ -8,10 +8,22 @@ func (p *Program) conjuncts(x Expr, deep bool) []Expr {
 		if x.Op == "&&" {
 			return append(p.conjuncts(x.L, deep), p.conjuncts(x.R, deep)...)
 		}
-		if x.Op == "==>" && deep {
+		if x.Op == "==>" {
+			if _, isLet := x.R.(*ELet); !deep && !isLet {
+				break
+			}
 			var out []Expr
 			for _, r := range p.conjuncts(x.R, deep) {
 				out = append(out, &EBin{Op: "==>", L: x.L, R: r})
+			}
+			return out
+		}
+	case *ELet:
+		cs := p.conjuncts(x.Body, deep)
+		if len(cs) > 1 {
+			var out []Expr
+			for _, c := range cs {
+				out = append(out, &ELet{Name: x.Name, Val: x.Val, Body: c})
 			}
 			return out
 		}
